@@ -55,14 +55,19 @@ def plan(tier, seed):
     sections = [(p.name, cpu) for p in corpus.programs() for cpu in sorted(vocabulary(p))]
     if tier == 'quick':
         sections = random.Random(seed * 2654435761 % (1 << 32)).sample(sections, min(40, len(sections)))
-    cases += [{'kind': 'trans', 'prog': n, 'cpu': c} for n, c in sections]
-    only = os.environ.get('VERIF_C18_KINDS')      # development aid
-    if only:
-        cases = [c for c in cases if c['kind'] in only.split(',')]
+    # (with and without an END statement behind the one statement: the empty line after the last statement of a file
+    # without END passes through the code generator once more and may clear what the statement left behind)
+    if tier == 'quick':
+        cases += [{'kind': 'trans', 'prog': n, 'cpu': c, 'end': (i + seed) % 2} for i, (n, c) in enumerate(sections)]
+    else:
+        cases += [{'kind': 'trans', 'prog': n, 'cpu': c, 'end': e} for n, c in sections for e in (0, 1)]
     # guarantee that every program appears once as successor of a generated predecessor and once in a pair
     for i, n in enumerate(names):
         cases.append({'kind': 'gen', 'succ': n})
         cases.append({'kind': 'pair', 'first': n})
+    only = os.environ.get('VERIF_C18_KINDS')      # development aid
+    if only:
+        cases = [c for c in cases if c['kind'] in only.split(',')]
     return cases
 
 
@@ -139,7 +144,8 @@ def run_trans(case, ctx):
     if len(mns) > MAX_MNEMONICS:
         mns = sorted(rng.sample(mns, MAX_MNEMONICS))
     reps = [rng.choice(by_mn[m]) for m in mns]
-    tag = '%s/%s' % (prog.name, cpu)
+    tail = '\tend\n' if case.get('end') else ''
+    tag = '%s/%s%s' % (prog.name, cpu, '/END' if tail else '')
     out.sample = {'section': tag, 'mnemonics': len(mns)}
     flags = [f for f in prog.flags]
     os.makedirs(ctx.path('t'), exist_ok=True)
@@ -150,7 +156,7 @@ def run_trans(case, ctx):
     keep = []
     for i, l in enumerate(reps):
         name = 't/s%03d.asm' % i
-        ctx.write(name, '\tcpu\t%s\n%s\n' % (cpu, l))
+        ctx.write(name, '\tcpu\t%s\n%s\n%s' % (cpu, l, tail))
         r, ps, dg, nf = run_set(ctx, [name], flags, ['inc'], 'solo')
         if r.timed_out:
             out.inconc('timeout: solo')
@@ -173,7 +179,7 @@ def run_trans(case, ctx):
     srcs = []
     for k, a in enumerate(seq):
         name = 't/f%05d.asm' % k
-        ctx.write(name, '\tcpu\t%s\n%s\n' % (cpu, reps[keep[a]]))
+        ctx.write(name, '\tcpu\t%s\n%s\n%s' % (cpu, reps[keep[a]], tail))
         srcs.append(name)
     # (the tools accept at most 256 parameters: invocations of 200 files, each beginning with the last file of the one before)
     ps, dg = {}, {}
